@@ -448,12 +448,16 @@ func (env *ExecEnv) Eval(expr string) (n int, err error) {
 	defer func() {
 		if e := recover(); e != nil {
 			l.Error(e.(error).Error())
+			verifPoint(l, "P.parsed", 1)
 			<-l.done
+			verifPoint(l, "P.joined", 1)
 			err = l.err
 		}
 	}()
 
 	yyParse(l)
+	verifPoint(l, "P.parsed", 0)
 	<-l.done
+	verifPoint(l, "P.joined", 0)
 	return l.n, l.err
 }
